@@ -78,7 +78,8 @@ type roles struct {
 	runInits       *FuncInfo // method of *scope ranging over the provider's initializer list
 	newScope       *FuncInfo
 	allocScope     *FuncInfo // function containing the &scope{} literal
-	doBuild        *FuncInfo // function containing the &provider{} literal
+	doBuild        *FuncInfo // the build function: the *collection method that runs the cycle check
+	allocProvider  *FuncInfo // function containing the &provider{} literal (doBuild or a private helper of it)
 	createAll      *FuncInfo // method of *provider calling TopologicalSort
 	cache          *types.Var
 	singletons     *types.Var
@@ -147,16 +148,18 @@ func resolveRoles(w *World) *roles {
 						ro.allocScope = fi
 					}
 					if isNamedType(tv.Type, modPath, "provider") {
-						ro.doBuild = fi
+						ro.allocProvider = fi
 					}
 				}
-			case *ast.RangeStmt:
-				if fieldOf(info, x.X) == ro.initList {
-					rangesInit = true
-				}
-				if o := objOf(info, x.X); o != nil {
-					if f, how := localOrigin(fi, o); f == ro.initList && how == "copy" {
+			case *ast.RangeStmt, *ast.ForStmt:
+				if il := asIterLoop(info, x.(ast.Stmt)); il != nil {
+					if fieldOf(info, il.Coll) == ro.initList {
 						rangesInit = true
+					}
+					if il.CollObj != nil {
+						if f, how := localOrigin(w, fi, il.CollObj); f == ro.initList && how == "copy" {
+							rangesInit = true
+						}
 					}
 				}
 			}
@@ -195,6 +198,19 @@ func resolveRoles(w *World) *roles {
 		}
 	}
 	ro.newScope = w.Fn(w.Godi, "newScope")
+	for _, fi := range w.FuncsOf(w.Godi) {
+		if rn := recvNamed(fi.Obj); rn == nil || rn.Obj().Name() != "collection" {
+			continue
+		}
+		for _, c := range callsIn(fi.Decl.Body, true) {
+			if cal := callee(fi.Pkg.TypesInfo, c); cal != nil && cal.Name() == "DetectCycles" && recvNamed(cal) != nil && recvNamed(cal).Obj().Name() == "DependencyGraph" {
+				ro.doBuild = fi
+			}
+		}
+	}
+	if ro.doBuild == nil {
+		ro.doBuild = ro.allocProvider
+	}
 	for name, f := range map[string]*FuncInfo{"setInstance": ro.setInstance, "resolve": ro.resolve, "createInstance": ro.createInstance,
 		"setSingleton": ro.setSingleton, "getInstance": ro.getInstance, "getSingleton": ro.getSingleton, "scope initializer pass": ro.runInits,
 		"scope allocation": ro.allocScope, "provider allocation (doBuild)": ro.doBuild, "eager singleton creation": ro.createAll} {
